@@ -24,6 +24,7 @@ RULE = (
     "grid: save_every k in 1..N+2 x run length N in 0..Nmax (fixed dt, solve_time=(N-1/2)dt) x thermalisation {off,3 steps} x "
     "probe points {0,2,3} x screening {off,on}, all enumerated (Nmax=6 quick, 12 thorough); generated: adaptive runs with "
     "generated dt_init/dt_max/window/multiplier/retries, drives and k; non-trivial = N>=1 and >=2 frames; distinct by spec hash"
+    "; derived views (dynamics.time, closest_solve_step, closest_time, voltage, phase_difference, mean_voltage) and exact screening-iteration counts are compared as well"
 )
 ASSUMPTIONS = [
     "the state after s updates is identified by a SHA-256 digest of the arrays returned by the s-th call of TDGLSolver.update "
